@@ -310,6 +310,10 @@ class Gen:
         self.do({'op': 'apply', 'r': r, 'sets': [{'k': 'aset', 'v': g_}], 'S': [g_], 'start': self.rng.choice([0, 1]), 'end': self.rng.choice([None, n - 1]), 'top': True})
         a_ = self.rng.randint(1, n - 2)
         self.do({'op': 'apply', 'r': r, 'sets': [f], 'S': d, 'start': a_, 'end': self.rng.randint(a_ + 1, n - 1), 'top': True})
+        if n <= 8 and self.room(n + 3) and self.rng.random() < 0.5:
+            e = self.do({'op': 'iter', 'r': r})
+            if e['out'] == 'ok' and e['res'] and self.rng.random() < 0.5:
+                self.do({'op': 'join', 'cls': 'S', 'items': e['res'], 'tag': 'rejoin_iter:%d' % r})
 
     def g_pad_pair(self):
         """Two different justifications of the same object with the same width and fill."""
@@ -324,6 +328,68 @@ class Gen:
             if meth != 'zfill' and fill is not None:
                 o['fill'] = fill
             self.do(o)
+
+    def g_grow_then_slice(self):
+        """Look at a value (slice / index / iterate), grow it in place (ljust or assign_str), look again at the new tail."""
+        r = self.pick('S')
+        if not r or not self.room(8) or self.length(r) < 1 or self.length(r) > 7:
+            return
+        n = self.length(r)
+        look = self.rng.choice(['slice', 'index', 'iter'])
+        if look == 'slice':
+            self.do({'op': 'slice', 'r': r, 'start': self.rng.randint(0, n - 1), 'stop': None})
+        elif look == 'index':
+            self.do({'op': 'index', 'r': r, 'i': -1})
+        elif self.room(n + 6):
+            self.do({'op': 'iter', 'r': r})
+        self.do({'op': 'ansi_settings_at', 'r': r, 'i': n - 1})
+        k = self.rng.randint(1, 3)
+        if self.rng.random() < 0.5:
+            self.do({'op': 'pad', 'r': r, 'm': 'ljust', 'width': n + k, 'inplace': True, 'extend': True})
+        else:
+            self.do({'op': 'assign_str', 'r': r, 'text': self.base_text(r) + 'xyz'[:k]})
+        if not self.room(4):
+            return
+        self.do({'op': 'index', 'r': r, 'i': -1})
+        self.do({'op': 'slice', 'r': r, 'start': n - 1, 'stop': None})
+        self.do({'op': 'ansi_settings_at', 'r': r, 'i': n + k - 1})
+        self.do({'op': 'find_settings', 'r': r, 'sets': [], 'S': [], 'start': 0, 'end': None})
+
+    def g_remove_prefixlike(self):
+        """A compound verbatim setting whose code list starts like a plain one: removing the plain one must leave it alone."""
+        r = self.pick('S')
+        if not r or self.length(r) < 2:
+            return
+        n = self.length(r)
+        plain, comp = self.rng.choice([('1', '1;31'), ('4', '4;3'), ('31', '31;1'), ('38;5;1', '38;5;1;4')])
+        order = [(comp, 'verb'), (plain, 'aset')]
+        self.rng.shuffle(order)
+        for code, kind in order:
+            a_ = self.rng.randint(0, n - 1)
+            self.do({'op': 'apply', 'r': r, 'sets': [{'k': kind, 'v': code}], 'S': [code], 'start': self.rng.choice([0, a_]), 'end': None, 'top': True})
+        target = plain if self.rng.random() < 0.7 else comp
+        self.do({'op': 'remove', 'r': r, 'sets': [{'k': 'aset', 'v': target}], 'S': [target], 'start': 0, 'end': self.rng.choice([None, n, n - 1])})
+
+    def g_match_case_match(self):
+        """Case-sensitive matching, an in-place case conversion, the very same matching again."""
+        r = self.pick('S')
+        if not r or not self.room(6) or self.length(r) < 2:
+            return
+        t = self.base_text(r)
+        i = self.rng.randrange(len(t))
+        pat = t[i:i + self.rng.randint(1, 2)]
+        regex = self.rng.random() < 0.3
+        un = self.rng.random() < 0.3
+        forms, S = self.settings()
+        o = {'op': 'unformat_matching' if un else 'format_matching', 'r': r, 'pat': pat, 'regex': regex, 'match_case': True,
+             'count': -1, 'sets': forms, 'S': S}
+        self.do(dict(o))
+        self.do({'op': 'case', 'r': r, 'm': self.rng.choice(['upper', 'lower', 'swapcase', 'title', 'capitalize']), 'inplace': True})
+        forms2, S2 = self.settings()
+        o2 = dict(o)
+        if self.rng.random() < 0.6:
+            o2['sets'], o2['S'] = forms2, S2
+        self.do(o2)
 
     def g_clear(self):
         r = self.pick()
@@ -794,13 +860,14 @@ PROFILES = {
     'C11': dict(nonuniform=2.5, new=0.5, case=1.5, strip=2, rmfix=2, replace=3.5, expandtabs=1, split=3.5, splitlines=1.5,
                 partition=2.5, assign_str=1.5, apply=1.5, remove=0.5, add=0.5),
     'C12': dict(nonuniform=2, new=1, pad=5, pad_nested=1.5, pad_pair=1.5, fmt=5, apply=2, remove=0.5, slice=0.5, add=0.5),
-    'C16': weights(matching=6, apply=3, remove=1, slice=0.5, render=0.2, case=1.5, copy=0.3),
-    'C17': weights(find_settings=5, settings_at=2.5, apply=4, remove=2, slice=0.5, add=0.7, iadd=0.7, pad=1.2, assign_str=0.6,
+    'C16': weights(matching=6, apply=3, remove=1, slice=0.5, render=0.2, case=1.5, copy=0.3, match_case_match=1.5),
+    'C17': weights(find_settings=5, settings_at=2.5, apply=4, remove=2, slice=0.5, add=0.7, iadd=0.7, pad=1.2, assign_str=0.6, grow_then_slice=1.5,
                    strip=0.5, new_from=0.8),
-    'C04': weights(slice=5, index=2, clip=2, iter=1.5, iter_join=0.6, apply=3, remove=1.5, pad=0.8, assign_str=0.6, strip=0.4),
+    'C04': weights(slice=5, index=2, clip=2, iter=1.5, iter_join=0.6, apply=3, remove=1.5, pad=0.8, assign_str=0.6, strip=0.4,
+                   same_form_nested=1.2, grow_then_slice=1.2),
     'C05': weights(add=4, iadd=4, join=2, split_rejoin=2, slice=2, iter_join=1.0, shared_objects=0.8, seam_order=1.2),
     'C06': weights(apply=6, remove=1.5, slice=1, restart_leftover=1.5, bottom_at_begin=1.5, same_form_nested=1.5),
-    'C07': weights(remove=4, remove_edge=2.5, apply=5, clear=0.3),
+    'C07': weights(remove=4, remove_edge=2.5, apply=5, clear=0.3, remove_prefixlike=1.2),
     'C08': weights(copy=3, add=2.5, iadd=2.5, join=1.5, slice=3, new_from=2, replace=2, pad=0.7, strip=0.5, split=0.5, fmt=0.7,
                    matching=0.5, case=0.3),
     'C09': weights(iter_join=1.0, iadd=2.5, replace=1.0, pad=2.0, pad_nested=1.0, remove_edge=0.7, restart_leftover=0.5, shared_objects=0.8, split=0.7, partition=0.5, strip=0.5, rmfix=0.5, case=0.3,
